@@ -13,11 +13,11 @@ def groups(tier):
          Group('gf.field', 'shamir', 'C10/gf.c', entry='h_field', unwind=9, kind='constant-unwind', bound='8-bit operands',
                clause='the specification product is commutative, has identity 1 and no zero divisors')]
     G += [Group('split.indices.n<=16', 'shamir_b', 'C10/gf.c', entry='h_split_indices', defines=['N_MAX=16', 'SHAMIR_UNIT_B'], unwind=18, unwind_by={'crypto__build_exp_table': 513, 'crypto__build_log_table': 257, 'crypto__Shamir__split#1': 33}, kind='bounded',
-                bound='share_count <= 16, threshold 1', timeout=600,
+                bound='share_count <= 16, threshold 1', timeout=1800,
                 clause='split terminates and yields n shares with distinct non-zero indices 1..n'),
           Group('split.contract', 'shamir', 'C10/gf.c', entry='h_split_contract', enforce='crypto__Shamir__split', loop_contracts=True,
                 replace=['vec_crypto__ShamirShare_push_back_reserved', 'vec_u8_push_back', 'crypto__evaluate_polynomial'],
-                unwind=20, unwind_by={'crypto__build_exp_table': 513, 'crypto__build_log_table': 257}, kind='unbounded', timeout=900,
+                unwind=20, unwind_by={'crypto__build_exp_table': 513, 'crypto__build_log_table': 257}, kind='unbounded', timeout=2400,
                 replay='split',
                 clause='split terminates (loop invariants + variants on all four loops) for every threshold and share count 0..255, '
                        'yields share_count shares, and raises invalid_argument exactly for t = 0, n = 0 or t > n')]
